@@ -101,8 +101,25 @@ def run_engine_k(pid, tier, seed, out, ev):
     results = {}
     t0 = time.time()
     from concurrent.futures import ThreadPoolExecutor
+    import threading
+    cv = threading.Condition()
+    free = [jobs]
+
+    def weighted(n):
+        # memory-aware scheduling: a harness annotated weight=k occupies k of the `jobs` slots
+        w = min(max(getattr(names[n], "weight", 1), 1), jobs)
+        with cv:
+            while free[0] < w:
+                cv.wait()
+            free[0] -= w
+        try:
+            return kani.run_harness(scratch, tdir, n, logdir, (names[n].timeout or default_to) * (1 if tier == "quick" else 3), 24)
+        finally:
+            with cv:
+                free[0] += w
+                cv.notify_all()
     with ThreadPoolExecutor(max_workers=jobs) as ex:
-        futs = {n: ex.submit(kani.run_harness, scratch, tdir, n, logdir, (names[n].timeout or default_to) * (1 if tier == "quick" else 3), 20) for n in order}
+        futs = {n: ex.submit(weighted, n) for n in order}
         for n in order:
             results[n] = futs[n].result()
             prog(results[n])
@@ -117,7 +134,7 @@ def run_engine_k(pid, tier, seed, out, ev):
         entry["doc"] = h.doc
         entry["unwind"] = h.unwind
         kres.append(entry)
-        kf = [k for k in known if k["harness"] == n and pid in k["properties"]]
+        kf = [k for k in known if k.get("harness") == n and pid in k["properties"]]
         sat_cov = [c for c in r.covers if c["status"] == "SATISFIED"]
         if h.expect_panic is not None:
             # the call must panic on every input: the cover after the call must be unreachable and
